@@ -1589,6 +1589,17 @@ void RegularExpression::prepare() {
     }
 }
 
+// Returns the first character (code point) of a UTF-16 string, composing a
+// leading surrogate pair
+static XMLInt32 firstCodePoint(const XMLCh* const str)
+{
+    if (RegxUtil::isHighSurrogate(str[0]) && str[1] != 0
+        && RegxUtil::isLowSurrogate(str[1]))
+        return RegxUtil::composeFromSurrogate(str[0], str[1]);
+
+    return str[0];
+}
+
 bool RegularExpression::doTokenOverlap(const Op* op, Token* token)
 {
     if(op->getOpType()==Op::O_RANGE)
@@ -1599,9 +1610,13 @@ bool RegularExpression::doTokenOverlap(const Op* op, Token* token)
         case Token::T_CHAR:
             return t1->match(token->getChar());
         case Token::T_STRING:
-            return t1->match(*token->getString());
+            return t1->match(firstCodePoint(token->getString()));
         case Token::T_RANGE:
             {
+                // the ranges of a negated class list the excluded characters,
+                // they cannot be intersected as if they were the accepted ones
+                if (t1->getTokenType() == Token::T_NRANGE)
+                    return true;
                 try
                 {
                     RangeToken tempRange(t1->getTokenType(), fMemoryManager);
@@ -1624,7 +1639,7 @@ bool RegularExpression::doTokenOverlap(const Op* op, Token* token)
     if(op->getOpType()==Op::O_CHAR)
         ch=op->getData();
     else if(op->getOpType()==Op::O_STRING)
-        ch=*op->getLiteral();
+        ch=firstCodePoint(op->getLiteral());
 
     if(ch!=0)
     {
@@ -1633,7 +1648,7 @@ bool RegularExpression::doTokenOverlap(const Op* op, Token* token)
         case Token::T_CHAR:
             return token->getChar()==ch;
         case Token::T_STRING:
-            return *token->getString()==ch;
+            return firstCodePoint(token->getString())==ch;
         case Token::T_RANGE:
         case Token::T_NRANGE:
             return ((RangeToken*)token)->match(ch);
